@@ -8,6 +8,8 @@ package main
 import (
 	"fmt"
 	"math"
+	"os"
+	"path/filepath"
 	"sort"
 	"strconv"
 	"strings"
@@ -429,6 +431,25 @@ func lit64(f float64) string {
 }
 
 func runC01(c *Ctx) error {
+	// a corpus of handwritten programs first: the shapes that once showed a defect (named constants, rune and
+	// named-type conversions, copy as a value, nil comparisons, operand order of assignments, blank parameters,
+	// variadic methods, wide map keys)
+	if files, _ := filepath.Glob(filepath.Join(c.Corpus, "C01-programs", "*.go")); len(files) > 0 {
+		sort.Strings(files)
+		var progs []GoProg
+		var feats []map[string]bool
+		for _, f := range files {
+			b, err := os.ReadFile(f)
+			if err != nil {
+				return err
+			}
+			progs = append(progs, GoProg{Src: string(b)})
+			feats = append(feats, map[string]bool{"corpus-" + strings.TrimSuffix(filepath.Base(f), ".go"): true})
+		}
+		if err := c.goDiff("go-toolchain-corpus", progs, feats); err != nil {
+			return err
+		}
+	}
 	if c.Thorough() {
 		c.c01MathNative(20000)
 	} else {
